@@ -20,7 +20,7 @@ LEVEL = "fault_enumeration"
 SHARDS = {"quick": 16, "thorough": 16}
 MUST = ["cut.cases", "kind.bytes", "kind.bytesio", "kind.file", "kind.realfile", "kind.shortfile", "kind.socket_closed",
         "kind.socketpair_closed", "empty.cases", "random.cases", "via_definition.cases", "cut.in_header", "cut.in_body",
-        "cut.on_border"]
+        "cut.on_border", "progress.cases"]
 RULE = ("fault = end of data at byte offset c of a valid stream; enumerated: every c in 0..len for 6 base streams "
         "(1-4 packets, prefix k in {0,3}, data lengths 1..300) x source kinds {bytes, BytesIO default, "
         "BytesIO r in {1,7,4096}, recording file, short-read file, real file, scripted socket closed by peer, real "
@@ -89,7 +89,18 @@ def cut_class(stream_borders, k, c, total):
     return "in-body"
 
 
-def one(ctx, data, k, kind, r, entry, defn, cls, rng):
+def one(ctx, data, k, kind, r, entry, defn, cls, rng, progress=False):
+    """one truncated/arbitrary input through one source kind and entry point"""
+    if progress:
+        import contextlib
+        import io as _io
+        ctx.count("progress.cases")
+        with contextlib.redirect_stdout(_io.StringIO()):
+            return _one(ctx, data, k, kind, r, entry, defn, cls, rng, True)
+    return _one(ctx, data, k, kind, r, entry, defn, cls, rng, False)
+
+
+def _one(ctx, data, k, kind, r, entry, defn, cls, rng, progress):
     from space_packet_parser import exceptions as X
     from space_packet_parser import packets as P
     exp, remainder = model_frames(data, k)
@@ -123,6 +134,8 @@ def one(ctx, data, k, kind, r, entry, defn, cls, rng):
             src = SpinSocket(sources.cut(data, sizes), closed_by_peer=True)
         elif kind == "socketpair_closed":
             src, th, _snd = sources.socketpair_feed(data, [max(1, len(data) // 3)] * 3, close=True)
+        if progress:
+            kw["show_progress"] = True
         if entry == "raw":
             gen = P.ccsds_generator(src, **kw)
         elif entry == "headers_only":
@@ -164,7 +177,8 @@ def one(ctx, data, k, kind, r, entry, defn, cls, rng):
             elif end == "stop" and len(raws) < len(exp):
                 mech, msg = "remainder-holds-a-packet", f"stopped after {len(raws)} packets but {len(exp) - len(raws)} more complete packets were available"
         if mech:
-            ctx.violation(f"{entry}/{kind if kind != 'shortfile' else 'file'}/{mech}/{cls}", msg, dict(wit, yielded=len(items)))
+            ctx.violation(f"{entry}/{kind if kind != 'shortfile' else 'file'}/{mech}/{cls}{'/show_progress' if progress else ''}", msg,
+                          dict(wit, yielded=len(items), show_progress=progress))
         ctx.sig(kind, "default" if r is None else r, entry, cls) if (kind, cls) != ("bytes", "complete") else None
         gen.close()
     finally:
@@ -214,7 +228,7 @@ def run(ctx):
                 for entry in entries:
                     if entry != "raw" and (item + c) % 3 and kind not in ("bytes", "bytesio"):
                         continue
-                    one(ctx, stream[:c], k, kind, r, entry, defn, cls, rng)
+                    one(ctx, stream[:c], k, kind, r, entry, defn, cls, rng, progress=(item + c) % 5 == 0)
                 ctx.count("cut.cases")
                 ctx.count({"in-header": "cut.in_header", "in-body": "cut.in_body", "on-border": "cut.on_border"}.get(cls, "cut.other"))
     ctx.exhaustive_space("cut offsets 0..len of 6 base streams x 12 source configurations", 1)
@@ -223,6 +237,7 @@ def run(ctx):
         for entry in entries:
             for k in (0, 4):
                 one(ctx, b"", k, kind, r, entry, defn, "empty", rng)
+                one(ctx, b"", k, kind, r, entry, defn, "empty", rng, progress=True)
                 ctx.count("empty.cases")
     # ---- arbitrary byte strings -------------------------------------------------------------------------------
     for i in range(ctx.size(500, 50_000)):
